@@ -3,7 +3,7 @@
 Metamorphic, run-vs-run: the observation of a generated (world, validated config, multi-agent script) must be identical
 (a) when re-executed in the same warm process, (b) in fresh processes under other PYTHONHASHSEED values (case order
 reversed), (c) under perturbed clocks (perf_counter / time.time jittered, scaled, stalling; datetime.now() offset by
-hours inside the engine modules), (d) with thread switching forced to 1 microsecond for T1-parallel configs.
+hours inside the engine modules), (d) with thread switching forced to 1 microsecond (T1- and T2-parallel configs run their shard tasks on threads).
 """
 from __future__ import annotations
 
@@ -21,7 +21,7 @@ from harness import world, observe
 
 LEVEL = "exploration"
 RULE = ("Hypothesis-generated worlds (2 graphs, 3-10 episodes of 3 owners incl. exact ties, GEL edges), validated configs "
-        "(caches on/off, T1-parallel 2-4 workers, scheduler enabled with huge quantum so only budget-driven yields occur, "
+        "(caches on/off, T1-parallel and T2-parallel 2-4 workers, scheduler enabled with huge quantum so only budget-driven yields occur, "
         "GEL with merge/split/promotion, reflection, hybrid, quality+MMR, perf metrics on/off) and scripts of 2-6 turns over "
         "2-3 agents; each case is executed in 5 environments (in-process, warm re-run, fresh process PYTHONHASHSEED=1 with "
         "reversed case order, fresh process with a seed-derived hash seed + perturbed clocks + 1us thread switching, and "
@@ -33,7 +33,7 @@ ASSUMPTIONS = ["compared: utterances, t1/t2/t4/apply/turn/health.jsonl bytes und
                "scheduler.budgets.time_ms_reflection is not set (a wall-clock budget is wall-clock dependent by design)",
                "episodes always carry a valid ts (a missing ts falls back to the wall clock in the recency filter)"]
 
-FEATURES = ["caches_off", "t1_parallel", "sched_budgets", "gel", "reflection", "hybrid", "quality", "perf_metrics", "agent_scope",
+FEATURES = ["caches_off", "t1_parallel", "t2_parallel", "t2_parallel", "sched_budgets", "gel", "reflection", "hybrid", "quality", "perf_metrics", "agent_scope",
             "kill_switch", "snapshot_every_2", "snippet_template"]
 
 
@@ -43,6 +43,10 @@ def feature_overrides(feats, draw_vals):
         o = world.deep_merge(o, {"t1": {"cache": {"enabled": False}}, "t2": {"cache": {"enabled": False}}, "t4": {"cache": {"enabled": False}}})
     if "t1_parallel" in feats:
         o = world.deep_merge(o, {"perf": {"parallel": {"enabled": True, "t1": True, "max_workers": draw_vals["workers"]}}})
+    if "t2_parallel" in feats:
+        # sharded retrieval on worker threads; without the archive tier nothing re-finds what a tier lost
+        o = world.deep_merge(o, {"perf": {"parallel": {"enabled": True, "t2": True, "max_workers": draw_vals["workers"]}},
+                                 "t2": {"tiers": ["exact_semantic", "cluster_semantic"], "exact_recent_days": 1}})
     if "sched_budgets" in feats:
         o = world.deep_merge(o, {"scheduler": {"enabled": True, "quantum_ms": 10 ** 8, "policy": draw_vals["policy"],
                                                "budgets": dict({"wall_ms": 10 ** 9}, **draw_vals["budgets"])}})
